@@ -148,7 +148,7 @@ Listeners(s, evt, arg) ==
 (* the process future                                                                              *)
 (* ----------------------------------------------------------------------------------------------- *)
 FutSet(s, kind, v) ==
-  IF s.fut.st # "pending"                 \* known finding D9: a future cancelled by the user cannot be resolved
+  IF s.fut.st # "pending"                 \* known finding D9: a future cancelled by the user cannot be resolved (on_kill: F10 replaces it)
   THEN Err(IF s.fut.st = "cancelled" THEN Dev(s, "D9") ELSE s, "InvalidStateError")
   ELSE Ok([s EXCEPT !.fut = [st |-> kind, val |-> v]], None)
 
@@ -166,7 +166,7 @@ OnExcept(s, new) ==                       \* Process.on_except: a done future is
 
 OnKill(s, new) ==                         \* Process.on_kill: status := text; future fails with KilledError(text)
   LET s1 == [s EXCEPT !.status = new.val]
-      s2 == IF "F10" \in Fixes /\ s1.fut.st # "pending"
+      s2 == IF "F10" \in Fixes /\ s1.fut.st = "cancelled"
             THEN [s1 EXCEPT !.fut = [st |-> "pending", val |-> None]] ELSE s1
   IN Then(FutSet(s2, "killed", new.val), LAMBDA t : Hook(t, "on_kill"))
 
@@ -360,9 +360,14 @@ OnPaused(s, text) ==                      \* on_pausing; on_paused
                            !.status = IF text # None THEN text ELSE @]
        IN Hook(Listeners(t1, "paused", None), "on_paused"))
 
+\* F13: play() called by a hook or listener during the transition of a pause action withdraws the pause (the action
+\*      returns False without pausing; as written the process pauses all the same and the running action, cancelled by
+\*      play(), cannot be resolved: deviation D10)
 DoPause(s, text, next) ==                 \* _do_pause: try ... finally self._pausing = None
-  LET r == Then(IF next.label = "NONE" THEN Ok(s, None) ELSE TransitionTo(s, next), LAMBDA t : OnPaused(t, text))
-  IN [r EXCEPT !.s.pausing = 0, !.ret = IF r.exc = NoExc THEN "True" ELSE None]
+  LET t == IF next.label = "NONE" THEN Ok(s, None) ELSE TransitionTo(s, next)
+      withdrawn == "F13" \in Fixes /\ next.label # "NONE" /\ t.exc = NoExc /\ s.pausing # 0 /\ t.s.pausing # s.pausing
+      r == IF withdrawn THEN Ok(t.s, "False") ELSE Then(t, LAMBDA u : OnPaused(u, text))
+  IN [r EXCEPT !.s.pausing = 0, !.ret = IF r.exc # NoExc THEN None ELSE IF withdrawn THEN "False" ELSE "True"]
 
 Pause(s, text) ==
   IF s.st \in Terminal THEN Ok(s, "False")
@@ -424,7 +429,8 @@ RunAction(s, a, next) ==
        IN \* set_result / set_exception on the action future; if user code reached from the action replaced
           \* (and so cancelled) the very action that is running, both raise InvalidStateError out of step()
           \* (known finding D10)
-          IF r.s.acts[a].status # "pending" THEN Err(Dev(r.s, "D10"), "InvalidStateError")
+          IF "F13" \in Fixes /\ r.s.acts[a].status = "cancelled" /\ r.exc = NoExc THEN Ok(r.s, None)   \* called off meanwhile: stays cancelled
+          ELSE IF r.s.acts[a].status # "pending" THEN Err(Dev(r.s, "D10"), "InvalidStateError")
           ELSE IF r.exc = NoExc THEN Ok(WakeRpcs([r.s EXCEPT !.acts[a].status = IF r.ret = "False" THEN "doneFalse" ELSE "done"], a), None)
           ELSE Ok(WakeRpcs([r.s EXCEPT !.acts[a].status = "failed:" \o r.exc], a), None)
 
